@@ -48,6 +48,8 @@ func (p program) String() string {
 
 var secretByte = byte(0xA7)
 
+var tinySink *bool
+
 type outcome struct {
 	viol     string
 	calls    int
@@ -151,9 +153,18 @@ func run(p program, sh *shadow) string {
 				}
 			}
 		}
-		// a finalizer must not "close" (and un-count) a secret that was never created
+		// a finalizer must not "close" (and un-count) a secret that was never created: flush the
+		// allocator's tiny-object block, collect, give the finalizer goroutine time to run
+		callsAtReturn := sh.ncalls()
+		for i := 0; i < 64; i++ {
+			tinySink = new(bool)
+		}
+		tinySink = nil
 		runtime.GC()
-		time.Sleep(300 * time.Microsecond)
+		time.Sleep(1500 * time.Microsecond)
+		if extra := sh.ncalls() - callsAtReturn; extra > 0 {
+			return fmt.Sprintf("%d memory primitive call(s) were made on the failed secret's pages after %s had returned its error (a finalizer was left armed): %s", extra, p.create, sh.trace())
+		}
 		if d := securememory.InUseCounter.Count() - inUse0; d != 0 {
 			return fmt.Sprintf("InUseCounter moved by %d for a failed creation (after a garbage collection)", d)
 		}
